@@ -6,10 +6,13 @@ CONSTANTS
   QueueKept = TRUE
   ManifestWins = TRUE
   ForgetUnlinked = TRUE
+  NoOverwriteOnRename = TRUE
+  AdoptListed = TRUE
   Export = FALSE
 INVARIANT C03_ExactCover
 INVARIANT C10_NothingBeforeSave
 INVARIANT C10_FailedWritesNothing
 INVARIANT C10_Preserved
+INVARIANT C10_ForeignKept
 INVARIANT C18_NoInternal
 INVARIANT C13_Watermark
